@@ -41,7 +41,7 @@ func (c02) Components() map[string][]string {
 	}
 }
 func (c02) ProbeNames() []string {
-	return []string{"gpt", "mbr", "rewrite-over-other-kind", "auto-guid", "sector4096", "over-2TiB", "non-bmp-name", "128-entries", "sparse-index"}
+	return []string{"gpt", "mbr", "rewrite-over-other-kind", "auto-guid", "sector4096", "over-2TiB", "non-bmp-name", "128-entries", "sparse-index", "read-modify-write"}
 }
 func (c02) Budget(tier string) (int, int, int) {
 	if tier == "thorough" {
@@ -79,11 +79,11 @@ func genTableHistory(r *core.Rng, tier string, idx int) *core.Trace {
 		via := int64(r.Intn(2))
 		if r.Chance(65) {
 			g := genGPT(r, sectors, int(lss), 128, true)
-			t.Ops = append(t.Ops, core.Op{K: "gpt", S: g.GUID, A: via})
+			t.Ops = append(t.Ops, core.Op{K: "gpt", S: g.GUID, A: via, B: int64(r.Intn(2))}) // B=1: modify the table read from the disk instead of building a fresh one
 			t.Ops = append(t.Ops, g.ops("gp")...)
 		} else {
 			m := genMBR(r, sectors)
-			t.Ops = append(t.Ops, core.Op{K: "mbr", A: via})
+			t.Ops = append(t.Ops, core.Op{K: "mbr", A: via, B: int64(r.PickW(85, 15)), C: int64(r.Intn(2))})
 			t.Ops = append(t.Ops, m.ops("mp")...)
 		}
 	}
@@ -180,6 +180,20 @@ func execTableHistory(t *core.Trace, prop string) *core.Result {
 			tb := spec.table(int(lss), int(pss))
 			var err error
 			trig := "gpt.Write"
+			if o.B == 1 && prevKind == "gpt" {
+				// read-modify-write: the table object comes from gpt.Read and is given the new content
+				var cur *gpt.Table
+				if pk, _, _, _ := core.Guard(func() { cur, err = gpt.Read(d, int(lss), int(pss)) }); !pk && err == nil && cur != nil {
+					cur.Partitions, cur.ProtectiveMBR = tb.Partitions, tb.ProtectiveMBR
+					if tb.GUID != "" {
+						cur.GUID = tb.GUID // (a spec without a disk GUID keeps the one the disk has)
+					}
+					tb = cur
+					trig = "gpt.Write(modified-read-table)"
+					res.Probe("read-modify-write")
+				}
+				err = nil
+			}
 			if prevKind != "" && prevKind != "gpt" {
 				trig = "gpt.Write(over-" + prevKind + ")"
 				res.Probe("rewrite-over-other-kind")
@@ -353,6 +367,14 @@ func execTableHistory(t *core.Trace, prop string) *core.Result {
 		ext := [][2]int64{{446, 66}}
 		d.SetGuard(simdisk.Extent{Off: 446, Len: 66})
 		tb := spec.table(int(lss), int(pss))
+		if o.B == 1 && !want("C02.x") {
+			// (C03 only) a table object with more entries than an MBR holds - as after Read (always four entries)
+			// plus one appended: whatever the library does with the surplus, it stays inside bytes 446..511
+			for len(tb.Partitions) < 5+int(o.C%2) {
+				tb.Partitions = append(tb.Partitions, &mbr.Partition{Type: mbr.Linux, Start: 2048 + uint32(len(tb.Partitions))*64, Size: 32})
+			}
+			res.Probe("mbr-surplus-entries")
+		}
 		var err error
 		trig := "mbr.Write"
 		if staleGPT {
